@@ -12,8 +12,8 @@ from harness.speccommon import *
 LEVEL_TEXT = ('Lean 4 theorems over tables regenerated from radiometry.py (decimal literals as exact rationals): wavelength factors '
               'form a cocycle with identity and round trips (64 triples, any field of characteristic 0); the 27 flux triples as '
               'identities of rational functions in flux, wave, H, C; Spectrum.to preserves the trapezoid integral of a density and '
-              'the values of a unitless spectrum, composes and round-trips; exitance = pi x radiance and Planck unit-independence '
-              'with exp uninterpreted. Partial: Wien peak and Stefan-Boltzmann total are checked numerically only.')
+              'the values of a unitless spectrum, composes and round-trips; exitance = pi x radiance and Planck unit-independence between Gen.planckExitance and Gen.planckRadiance, each translated from its own source function, '
+              'with exp uninterpreted; flux-unit composition and the multi-argument to() loop (model applyTo) at spectrum level. Partial: Wien peak and Stefan-Boltzmann total are checked numerically only.')
 LEVEL_NOTE = ('partial: the clauses "peaks where Wien\'s law says" and "integrates to the Stefan-Boltzmann total" have no theorem '
               '(they need d/dλ of Planck\'s law and ∫x³/(eˣ−1)=π⁴/15); they are evaluated numerically on the implementation in every '
               'run. Trusted: tools/specs/c14.py (if-chain/literal reader), np.exp, np.trapz as Σ Δx·(y₀+y₁)/2.')
@@ -26,10 +26,12 @@ RULE = ('all 64 wavelength-unit triples and all 27 flux-unit triples (exhaustive
         'pairs; Wien/Stefan-Boltzmann numerics; vegaflux bands. distinct = (kind, units, sizes); non-trivial = units differ')
 TRUSTED = ['np.exp; np.trapz computes Σ (x[k+1]-x[k])·(y[k+1]+y[k])/2',
            'tools/specs/c14.py reads the if/elif dispatch chains and decimal literals of the unit classes']
-UNPROVEN = ['Planck radiance peaks where Wien\'s displacement law says (numerical check on the implementation only)',
+UNPROVEN = ['preservation of the default (Simpson) integral by Spectrum.to — only the trapezoid integral is proved',
+            'Planck radiance peaks where Wien\'s displacement law says (numerical check on the implementation only)',
             'Planck exitance integrates to the Stefan-Boltzmann total σT⁴ (numerical check on the implementation only)',
             'vegaflux: unit-consistency across (waveunit, valueunit) and agreement of the (m, photlam) value with the tabulated Jansky zero points are checked numerically by the oracle only']
-ASSUMPTIONS = ['Spectrum.to() accepts only the canonical names m/um/nm/angstrom although its docstring says "as accepted by Unit()" and Unit() also accepts meter/micron/nanometer: such calls raise ValueError today; they are generated, counted (tag to:alias-refused) and reported as a defect candidate, the model follows the code',
+ASSUMPTIONS = ['observation outside C14\'s statement (Planck functions, Spectrum.to): Blackbody.vegamag(valueunit="wlam"/"flam") stores photlam numbers under the requested label and its sample() disagrees with its value; visible in the tags vegamag:values-not-in-requested-flux-unit / vegamag:sample-differs-from-value; the bbto stream checks to() relative to the stored values',
+               'Spectrum.to() accepts only the canonical names m/um/nm/angstrom although its docstring says "as accepted by Unit()" and Unit() also accepts meter/micron/nanometer: such calls raise ValueError today; they are generated, counted (tag to:alias-refused) and reported as a defect candidate, the model follows the code',
                'module constants are compared with CODATA values to 1e-6 (C = 299792456 is off by 6.7e-9: noted, inside the tolerance)',
                'flux identities need wave, H, C ≠ 0; the module constant C = 299792456 (a typo for …458) is taken as it is — every '
                'statement here is independent of its value']
@@ -144,7 +146,7 @@ def _impl(c):
         a, b, cc, f, w = c['a'], c['b'], c['c'], c['flux'], c['wave_m']
         ab = float(R.Unit(a).to(f, b, w))
         return {'ab': ab, 'abc': float(R.Unit(b).to(ab, cc, w)), 'ac': float(R.Unit(a).to(f, cc, w)), 'aba': float(R.Unit(b).to(ab, a, w)),
-                'aa': float(R.Unit(a).to(f, a, w)), 'H': R.H, 'C': R.C}
+                'aa': float(R.Unit(a).to(f, a, w)), 'H': R.H, 'C': R.C, 'K': R.K}
     if k == 'to':
         s = R.Spectrum(np.array(c['wave']), np.array(c['value']).astype({'int64': np.int64, 'int32': np.int32}.get(c.get('dtype'), float)), waveunit=c['wu'], valueunit=c['vu'])
         i0 = float(np.trapz(s.value, s.wave))
@@ -175,6 +177,17 @@ def _impl(c):
         if c['vega']: b = R.Blackbody.vegamag(wave, c['temp'], c['mag'], c['band'], waveunit=c['wu'], valueunit=c['vu'])
         else: b = R.Blackbody(wave, c['temp'], waveunit=c['wu'], valueunit=c['vu'])
         out = {'wave0': [float(x) for x in b.wave], 'value0': [float(x) for x in b.value], 'H': R.H, 'C': R.C}
+        if c['vega']:
+            # observation (outside C14's statement): vegamag computes photlam numbers and stores them under the requested label;
+            # compare with the photlam construction converted physically, and .sample() with .value
+            ref = R.Blackbody.vegamag(wave, c['temp'], c['mag'], c['band'], waveunit=c['wu'], valueunit='photlam')
+            phys = [float(v) * _to_wlam('photlam', x * 1e-9, R.H, R.C) / _to_wlam(c['vu'], x * 1e-9, R.H, R.C) for v, x in zip(ref.value, c['wave_nm'])]
+            notes = []
+            if not all_close(out['value0'], phys, 1e-9): notes.append('vegamag:values-not-in-requested-flux-unit')
+            try:
+                if not all_close([float(x) for x in b.sample(wave, c['wu'])], out['value0'], 1e-9): notes.append('vegamag:sample-differs-from-value')
+            except Exception: notes.append('vegamag:sample-raises')
+            NOTES[id(c)] = notes or ['vegamag:consistent']
         b.to(*c['units'])
         out.update({'wave': [float(x) for x in b.wave], 'value': [float(x) for x in b.value], 'wu': b.waveunit, 'vu': b.valueunit})
         return out
@@ -209,9 +222,9 @@ def requests(c, io):
                  'units': [u.lower() for u in c['units']], 'H': q(io['H']), 'C': q(io['C'])}]
     if k == 'planck':
         rs = []
-        for pref in (2.0, 2 * np.pi):
+        for fn in ('radiance', 'exitance'):
             for w in io['wave']:
-                rs.append({'op': 'c14.planck', 'wu': c['wu'], 'vu': c['vu'], 'wave': vlib.fbits(w), 'temp': vlib.fbits(c['temp']), 'pref': vlib.fbits(pref),
+                rs.append({'op': 'c14.planck', 'fn': fn, 'wu': c['wu'], 'vu': c['vu'], 'wave': vlib.fbits(w), 'temp': vlib.fbits(c['temp']), 'pi': vlib.fbits(np.pi),
                            'H': vlib.fbits(io['H']), 'C': vlib.fbits(io['C']), 'K': vlib.fbits(io['K'])})
         return rs
     return []
@@ -236,7 +249,7 @@ def compare(c, io, mo):
             if not m.get('ok'): return f'model: {m}'
             if not close(float(unq(m['q'])), io[key], 1e-13): return f"flux {key} ({c['a']},{c['b']},{c['c']}): impl {io[key]!r} model {float(unq(m['q']))!r}"
         cs = mo[2]
-        if float(unq(cs['H'])) != io['H'] or float(unq(cs['C'])) != io['C']: return 'module constants H, C differ from the generated ones'
+        if float(unq(cs['H'])) != io['H'] or float(unq(cs['C'])) != io['C'] or float(unq(cs['K'])) != io['K']: return 'module constants H, C, K differ from the generated ones'
         return None
     if k == 'to':
         m = mo[0]
